@@ -5,9 +5,10 @@
    ndumps c = last event = number of dumps, start0 c = the first event is dump 0.
    Every theorem is for ALL series, ALL arguments, any value type V with a decidable equality veqb. *)
 From Coq Require Import ZArith List Bool Arith Lia.
-From KV Require Import Base.Sx Model.Categorical Proofs.CategoricalP Proofs.CategoricalAddP Proofs.CategoricalPartP
-  Proofs.CategoricalConcatP Proofs.CategoricalRemoveP Proofs.CategoricalAlignP Proofs.CategoricalSeqP
-  Gen.Generated Proofs.CategoricalTieP.
+From KV Require Import Base.Sx Model.Categorical Model.CategoricalX Proofs.CategoricalP Proofs.CategoricalAddP
+  Proofs.CategoricalPartP Proofs.CategoricalConcatP Proofs.CategoricalRemoveP Proofs.CategoricalAlignP
+  Proofs.CategoricalSeqP Proofs.CategoricalXP Proofs.CategoricalXPartP Proofs.CategoricalLawsP
+  Gen.Generated Proofs.CategoricalTieP Proofs.CategoricalExP.
 Import ListNotations.
 Open Scope nat_scope.
 
@@ -169,3 +170,309 @@ Example C11_example :
   getitem 0 ex_c (KSlice (Some (-3)%Z) None (Some (-2)%Z)) = GList [9; 7; 8; 7].
 Proof. exact ex_c_facts. Qed.
 Print Assumptions C11_example.
+
+(* ====================================================================================================== *)
+(* Round 2.  expand_full dflt c : list (option V) is the per-dump list over ALL dumps 0 .. N-1 (None = the dump
+   has no value: before the first event, which is legal after remove() and for a constructor whose first event
+   is not dump 0).  The theorems below drop the `start0` hypotheses of the ones above, cover the error branches
+   and the arguments outside the documented domain, add the laws and histories users rely on, and tie the
+   operators and constants of the source (catg_*, regenerated on every run) to the model. *)
+
+(* the per-dump list has exactly one entry per dump, for every well-formed series *)
+Theorem C11_per_dump_full : forall V (dflt : V) (c : cd), WF c ->
+  length (expand_full dflt c) = ndumps c /\ (start0 c -> expand_full dflt c = map Some (expand dflt c)).
+Proof. intros V dflt c W. split. exact (expand_full_length dflt c W). exact (expand_full_start0 dflt c). Qed.
+Print Assumptions C11_per_dump_full.
+
+(* getitem_full: indexing by int / slice / mask / list on ANY well-formed series = the same indexing of the list of
+   option values; selecting a dump without value is an IndexError (never a wrong value) *)
+Theorem C11_getitem_full : forall V (dflt : V) (c : cd) (k : key), WF c ->
+  (forall m, k = KMask m -> length m = ndumps c) ->
+  getitem dflt c k = spec_getitem_full (expand_full dflt c) k.
+Proof. exact @getitem_full. Qed.
+Print Assumptions C11_getitem_full.
+
+(* a bool key whose length is not N is NOT a mask for the code: the booleans are used as dump indices 0 / 1 *)
+Theorem C11_getitem_wrong_mask : forall V (dflt : V) (c : cd) m, length m <> ndumps c ->
+  getitem dflt c (KMask m) = getitem dflt c (KList (map (fun b : bool => if b then 1%Z else 0%Z) m)).
+Proof. exact @getitem_wrong_mask. Qed.
+Print Assumptions C11_getitem_wrong_mask.
+
+(* cmp_full: _bool_per_dump modelled literally (an array of N entries initialised with the value the SOURCE uses,
+   catg_bpd_init = np.zeros, then overwritten slice by slice) gives, for all six comparisons (any predicate f),
+   one boolean per dump: f on the dumps that have a value and False on the dumps before the first event *)
+Theorem C11_cmp_full : forall V (dflt : V) (c : cd) (f : V -> bool), WF c ->
+  bool_per_dump catg_bpd_init c f = spec_cmp_full (expand_full dflt c) f /\
+  length (bool_per_dump catg_bpd_init c f) = ndumps c /\
+  bool_per_dump catg_bpd_init c f = repeat false (hd 0 (ev c)) ++ cmp c f.
+Proof. exact @cmp_full_g. Qed.
+Print Assumptions C11_cmp_full.
+
+(* != is the negation of == (and >= of <, <= of >) on the dumps that have a value -- and only there *)
+Theorem C11_cmp_negation : forall V (dflt : V) (c : cd) (f : V -> bool), WF c ->
+  cmp c (fun x => negb (f x)) = map negb (cmp c f).
+Proof. exact @cmp_negb. Qed.
+Print Assumptions C11_cmp_negation.
+
+(* len() and segments(): as many segments as events, contiguous from the first event to N, each non-empty, and
+   glued together they are the per-dump list *)
+Theorem C11_segments : forall V (dflt : V) (c : cd), WF c ->
+  length (segments dflt c) = cat_len c /\
+  glue_segments (segments dflt c) = expand dflt c /\
+  map (fun t => fst (fst t)) (segments dflt c) = removelast (ev c) /\
+  map (fun t => snd (fst t)) (segments dflt c) = tl (ev c) /\
+  map snd (segments dflt c) = vals dflt c /\
+  Forall (fun t => fst (fst t) < snd (fst t)) (segments dflt c).
+Proof. intros V dflt c W. split. exact (segments_length dflt c W). exact (segments_spec dflt c W). Qed.
+Print Assumptions C11_segments.
+
+(* add for EVERY event argument outside the documented domain: beyond N it raises (IndexError), without a value it
+   raises everywhere outside [first event, N), and exactly AT N with a value it silently appends an index without
+   an event: the per-dump list is unchanged but the container is no longer well-formed (C11_add_expand is
+   therefore stated for e < N; observation recorded in design.d/C11.md) *)
+Theorem C11_add_outside : forall V (veqb : V -> V -> bool) (dflt : V) (c : cd), WF c ->
+  (forall e v, ndumps c < e -> add veqb c e v = None) /\
+  (forall e, e < hd 0 (ev c) \/ ndumps c <= e -> add veqb c e None = None) /\
+  (forall v, exists c' vi, add veqb c (ndumps c) (Some v) = Some c' /\ ev c' = ev c /\ idx c' = idx c ++ [vi] /\
+                           expand dflt c' = expand dflt c /\ ~ WF c').
+Proof. intros V veqb dflt c W. split. intros; apply add_beyond; auto. split. intros; apply add_novalue_outside; auto.
+  intros v. exact (add_at_end veqb dflt c v W). Qed.
+Print Assumptions C11_add_outside.
+
+(* read-after-add: the value added at dump e is what indexing at e returns *)
+Theorem C11_add_then_get : forall V (veqb : V -> V -> bool) (dflt : V), eq_dec_spec veqb ->
+  forall (c c' : cd) e v, WF c -> e < ndumps c -> add veqb c e (Some v) = Some c' ->
+  getitem dflt c' (KInt (Z.of_nat e)) = GVal v.
+Proof. exact @add_then_get. Qed.
+Print Assumptions C11_add_then_get.
+
+(* partition_any: partition on ANY well-formed series with at least one event and ANY strictly increasing
+   segments (also starting before the first event and running past N): every part is well-formed, starts at
+   dump 0, shares the unique values, and the parts are the cuts of the per-dump list with the first value
+   extended back to dump 0 and the last value extended forward (padded); a series without events raises *)
+Theorem C11_partition_any : forall V (dflt : V) (c : cd) segs, WF c -> incr segs ->
+  (idx c <> [] ->
+     partition_x c segs = Some (partition c segs) /\
+     map (expand dflt) (partition c segs) = spec_partition (padded dflt c (last segs 0)) segs /\
+     (forall p, In p (partition c segs) -> WF p /\ start0 p /\ idx p <> [] /\ uv p = uv c) /\
+     list_sum (map ndumps (partition c segs)) = last segs 0 - hd 0 segs) /\
+  (idx c = [] -> 2 <= length segs -> partition_x c segs = None) /\
+  (start0 c -> last segs 0 <= ndumps c -> padded dflt c (last segs 0) = expand dflt c).
+Proof.
+  intros V dflt c segs W I. split; [|split].
+  - intros NI. split. unfold partition_x. destruct (idx c); [congruence|reflexivity].
+    exact (partition_gen dflt c segs W NI I).
+  - intros E L. unfold partition_x. rewrite E. destruct segs as [|a [|b t]]; simpl in L; try lia. reflexivity.
+  - intros S0 L. unfold padded. unfold start0 in S0. rewrite S0. replace (last segs 0 - ndumps c) with 0 by lia.
+    simpl. apply app_nil_r.
+Qed.
+Print Assumptions C11_partition_any.
+
+(* partition followed by concatenation on ANY series: the window [first, last boundary) of the padded per-dump
+   list; with boundaries from 0 to N it is the per-dump list itself with the first value extended back to dump 0
+   (= the identity when the series starts at dump 0: C11_partition_concat_id) *)
+Theorem C11_partition_concat_any : forall V (veqb : V -> V -> bool) (dflt : V), eq_dec_spec veqb ->
+  forall (c : cd) segs ar cc, WF c -> idx c <> [] -> incr segs ->
+  concatenate veqb dflt (partition c segs) ar = Some cc ->
+  WF cc /\ start0 cc /\ ndumps cc = last segs 0 - hd 0 segs /\
+  expand dflt cc = firstn (last segs 0 - hd 0 segs) (skipn (hd 0 segs) (padded dflt c (last segs 0))) /\
+  (hd 0 segs = 0 -> last segs 0 = ndumps c ->
+     expand dflt cc = repeat (hd dflt (vals dflt c)) (hd 0 (ev c)) ++ expand dflt c).
+Proof.
+  intros V veqb dflt H c segs ar cc W NI I HC.
+  destruct (partconcat_gen veqb dflt H c segs ar cc W NI I HC) as (A & B & C & D).
+  repeat (split; [assumption|]). intros H0 HN.
+  destruct (partconcat_full veqb dflt H c segs ar cc W NI I H0 HN HC) as (_ & _ & _ & E). exact E.
+Qed.
+Print Assumptions C11_partition_concat_any.
+
+(* histories_full: ANY sequence of add / remove / add_unmatched / align / remove_repeats / partition+concatenate with
+   in-domain arguments (op_okx: add at a dump, align with N among the boundaries, partition boundaries from 0 to
+   N) keeps the invariant and the number of dumps -- no start0 hypothesis, so remove may come before anything *)
+Theorem C11_histories_full : forall V (veqb : V -> V -> bool) (dflt : V), eq_dec_spec veqb ->
+  forall ops (c c' : cd) N, WF c -> ndumps c = N -> Forall (op_okx N) ops ->
+  run_opsx veqb dflt c ops = Some c' -> WF c' /\ ndumps c' = N.
+Proof. exact @run_opsx_WF. Qed.
+Print Assumptions C11_histories_full.
+
+(* remove laws: the value is gone from the unique values and from every dump, every other unique value stays,
+   removing an absent value changes nothing at all, removing twice = removing once *)
+Theorem C11_remove_laws : forall V (veqb : V -> V -> bool) (dflt : V), eq_dec_spec veqb ->
+  forall (c : cd) v, WF c ->
+  ~ In v (uv (remove veqb c v)) /\ ~ In v (expand dflt (remove veqb c v)) /\
+  (forall w, w <> v -> In w (uv c) -> In w (uv (remove veqb c v))) /\
+  (~ In v (uv c) -> remove veqb c v = c) /\
+  remove veqb (remove veqb c v) v = remove veqb c v.
+Proof.
+  intros V veqb dflt H c v W. destruct (remove_gone veqb dflt H c v W) as (A & B & C).
+  repeat (split; [assumption|]). split.
+  - intros NI. apply remove_absent. apply (index_of_absent veqb dflt H). exact NI.
+  - exact (remove_idempotent veqb dflt H c v W).
+Qed.
+Print Assumptions C11_remove_laws.
+
+Theorem C11_remove_repeats_idempotent : forall V (c c' : @cd V), WF c -> remove_repeats c = Some c' ->
+  remove_repeats c' = Some c'.
+Proof. exact @remove_repeats_idempotent. Qed.
+Print Assumptions C11_remove_repeats_idempotent.
+
+(* align moves nothing when every event already is a segment start: same events, same value per event, same
+   per-dump list, and afterwards every unique value is in use (katdal drops an unused initial target with
+   target.align(target.events)); hence align is idempotent *)
+Theorem C11_align_fixed : forall V (dflt : V) (c : cd) segs c', WF c -> incr segs ->
+  Forall (fun e => In e segs) (ev c) -> align dflt c segs = Some c' ->
+  ev c' = ev c /\ vals dflt c' = vals dflt c /\ expand dflt c' = expand dflt c /\
+  (forall x, In x (uv c') -> In x (vals dflt c')).
+Proof. exact @align_fixed. Qed.
+Print Assumptions C11_align_fixed.
+
+Theorem C11_align_idempotent : forall V (dflt : V) (c : cd) segs c1 c2, WF c -> incr segs ->
+  align dflt c segs = Some c1 -> align dflt c1 segs = Some c2 ->
+  ev c2 = ev c1 /\ vals dflt c2 = vals dflt c1 /\ expand dflt c2 = expand dflt c1.
+Proof. exact @align_idempotent. Qed.
+Print Assumptions C11_align_idempotent.
+
+(* the label pipeline of the katdal data set classes: remove(v); align(scan events); add(0, v) if the first event
+   is after dump 0 -- for scan events containing 0 and N it is always defined and gives a well-formed series
+   that starts at dump 0, still has N dumps and whose events are all scan boundaries *)
+Theorem C11_label_pipeline : forall V (veqb : V -> V -> bool) (dflt : V), eq_dec_spec veqb ->
+  forall (c : cd) v segs, WF c -> 0 < ndumps c -> incr segs -> In 0 segs -> In (ndumps c) segs ->
+  exists c', label_pipeline veqb dflt c v segs = Some c' /\ WF c' /\ start0 c' /\ ndumps c' = ndumps c /\
+             Forall (fun e => In e segs) (ev c').
+Proof. exact @label_pipeline_spec. Qed.
+Print Assumptions C11_label_pipeline.
+
+(* add_unmatched does what it is for: afterwards every segment start inside the event range has a sensor event
+   within match_dist dumps; an unmatched start (all events further away than match_dist) has an event exactly there *)
+Theorem C11_add_unmatched_post : forall V (veqb : V -> V -> bool) (dflt : V) (c : cd) segs d s,
+  WF c -> In s segs -> hd 0 (ev c) <= s -> s < ndumps c ->
+  exists e, In e (ev (add_unmatched veqb c segs d)) /\ absd s e <= d /\
+            (d < list_min (map (absd s) (ev c)) -> e = s).
+Proof. exact @add_unmatched_post. Qed.
+Print Assumptions C11_add_unmatched_post.
+
+(* align: "there cannot be more sensor events than segments" *)
+Theorem C11_align_count : forall V (dflt : V) (c : cd) segs c', WF c -> incr segs -> align dflt c segs = Some c' ->
+  length (ev c') <= length segs /\ S (cat_len c') <= length segs.
+Proof. exact @align_count. Qed.
+Print Assumptions C11_align_count.
+
+(* unique_in_order, the fallback loop for unhashable elements (dict of tokens -> index, unique_elements.append,
+   inverse.append) computes first occurrences in original order and their inverse, exactly like the dict path,
+   whenever equal tokens mean equal values *)
+Theorem C11_unique_in_order_fallback : forall V K (veqb : V -> V -> bool) (keqb : K -> K -> bool) (tok : V -> K),
+  eq_dec_spec veqb -> eq_dec_spec keqb -> (forall a b, tok a = tok b -> a = b) ->
+  forall l, uio_tok keqb tok l = (unique_in_order veqb l, inverse_of veqb (unique_in_order veqb l) l).
+Proof. exact @uio_tok_spec. Qed.
+Print Assumptions C11_unique_in_order_fallback.
+
+(* tie, functions: the decision expressions of _lookup / add / remove / partition / remove_repeats written with the
+   operators, constants and searchsorted sides re-read from the source ARE the model functions, for all arguments *)
+Theorem C11_source_functions : forall V (veqb : V -> V -> bool),
+  (forall (c : @cd V) p, lookup_g c p = lookup c p) /\
+  (forall (c : @cd V) e val, add_g veqb c e val = add veqb c e val) /\
+  (forall (c : @cd V) v, remove_g veqb c v = remove veqb c v) /\
+  (forall (c : @cd V) segs, partition_g c segs = partition c segs) /\
+  (forall (c : @cd V), length (idx c) <= length (ev c) -> rr_g c = remove_repeats c).
+Proof. intros V veqb. split. exact lookup_g_ok. split. exact (add_g_ok veqb). split. exact (remove_g_ok veqb).
+  split. exact partition_g_ok. exact rr_g_ok. Qed.
+Print Assumptions C11_source_functions.
+
+(* tie, remaining pieces: mask test, unmatched test and match_dist default, diff > 0, single-part test, reduction
+   names and axes, np.zeros, allow_repeats / return_inverse / value defaults, and which operator each of the six
+   comparison methods of CategoricalData and ComparableArrayWrapper applies *)
+Theorem C11_source_pieces :
+  (forall a b : nat, catg_mask_len_cmp (Z.of_nat a) (Z.of_nat b) = (a =? b)) /\
+  (forall m d : nat, catg_unmatched_cmp (Z.of_nat m) (Z.of_nat d) = (d <? m)) /\
+  (forall a b : nat, catg_align_keep_cmp (Z.of_nat b - Z.of_nat a) catg_align_zero = (a <? b)) /\
+  (forall n : nat, catg_cc_single_cmp (Z.of_nat n) catg_cc_single = (n =? 1)) /\
+  (forall n : Z, catg_cc_next_op n catg_cc_next = (n + 1)%Z) /\
+  catg_match_dist = 1%Z /\ catg_um_axis = 1%Z /\ catg_um_reduce_is_min = true /\
+  catg_align_axis = 0%Z /\ catg_align_reduce_is_argmin = true /\
+  catg_bpd_init = false /\ catg_allow_repeats_default = false /\ catg_uio_inverse_default = false /\
+  catg_add_value_default_is_none = true /\
+  catg_cmp_methods = [0; 1; 2; 3; 4; 5]%Z /\ catg_wrapper_cmp_methods = [0; 1; 2; 3; 4; 5]%Z.
+Proof. exact catg_pointwise. Qed.
+Print Assumptions C11_source_pieces.
+
+Theorem C11_source_uses : forall V (veqb : V -> V -> bool) (dflt : V),
+  (forall (c : @cd V) m, getitem dflt c (KMask m) =
+     if catg_mask_len_cmp (Z.of_nat (length m)) (Z.of_nat (ndumps c))
+     then glist dflt c (map Z.of_nat (true_positions m 0))
+     else glist dflt c (map (fun b : bool => if b then 1%Z else 0%Z) m)) /\
+  (forall (c : @cd V) segs, add_unmatched veqb c segs (Z.to_nat catg_match_dist) =
+     fold_left (fun c s => match add veqb c s None with Some c' => c' | None => c end)
+       (filter (fun s => catg_unmatched_cmp (Z.of_nat (list_min (map (absd s) (ev c)))) catg_match_dist) segs) c) /\
+  (forall (parts : list (@cd V)),
+     concatenate veqb dflt parts catg_allow_repeats_default =
+     match parts with
+     | [] => None
+     | p :: _ => if catg_cc_single_cmp (Z.of_nat (length parts)) catg_cc_single then Some p
+                 else concatenate veqb dflt parts false
+     end).
+Proof. exact @catg_model_uses. Qed.
+Print Assumptions C11_source_uses.
+
+(* non-vacuity of the round-2 theorems: a series that starts at dump 3 *)
+Example C11_example_full :
+  (WF ex_d /\ ~ start0 ex_d /\ idx ex_d <> []) /\
+  expand_full 0 ex_d = [None; None; None; Some 7; Some 7; Some 7; Some 8; Some 8; Some 8; Some 8] /\
+  getitem 0 ex_d (KInt 1) = GErr /\ getitem 0 ex_d (KInt 4) = GVal 7 /\
+  getitem 0 ex_d (KSlice (Some 2%Z) None (Some 3%Z)) = GErr /\
+  getitem 0 ex_d (KSlice (Some 3%Z) None (Some 3%Z)) = GList [7; 8; 8] /\
+  getitem 0 ex_d (KMask [false; false; false; true; false; false; true; false; false; true]) = GList [7; 8; 8] /\
+  bool_per_dump catg_bpd_init ex_d (Nat.eqb 7) = [false; false; false; true; true; true; false; false; false; false] /\
+  bool_per_dump catg_bpd_init ex_d (fun x => negb (Nat.eqb 7 x)) =
+    [false; false; false; false; false; false; true; true; true; true].
+Proof. split. exact ex_d_WF. exact ex_full_facts. Qed.
+Print Assumptions C11_example_full.
+
+Example C11_example_segments :
+  cat_len ex_c = 4 /\ segments 0 ex_c = [(0, 2, 7); (2, 5, 8); (5, 6, 7); (6, 10, 9)] /\
+  glue_segments (segments 0 ex_c) = expand 0 ex_c.
+Proof. exact ex_len_segments. Qed.
+Print Assumptions C11_example_segments.
+
+Example C11_example_add :
+  add Nat.eqb ex_c 11 (Some 5) = None /\ add Nat.eqb ex_c 10 None = None /\ add Nat.eqb ex_d 1 None = None /\
+  option_map (fun c => (idx c, ev c)) (add Nat.eqb ex_c 10 (Some 5)) = Some ([0; 1; 0; 2; 3], [0; 2; 5; 6; 10]) /\
+  option_map (fun c => getitem 0 c (KInt 3)) (add Nat.eqb ex_c 3 (Some 5)) = Some (GVal 5).
+Proof. exact ex_add_total. Qed.
+Print Assumptions C11_example_add.
+
+Example C11_example_partition_any :
+  map (expand 0) (partition ex_d [0; 2; 5; 12]) = [[7; 7]; [7; 7; 7]; [7; 8; 8; 8; 8; 8; 8]] /\
+  padded 0 ex_d 12 = [7; 7; 7; 7; 7; 7; 8; 8; 8; 8; 8; 8] /\
+  option_map (expand 0) (concatenate Nat.eqb 0 (partition ex_d [0; 5; 10]) false) = Some [7; 7; 7; 7; 7; 7; 8; 8; 8; 8] /\
+  partition_x (remove Nat.eqb (remove Nat.eqb ex_d 7) 8) [0; 5; 10] = None /\
+  option_map (expand 0) (run_opsx Nat.eqb 0 ex_c
+     [ORemove 7; OPartConcat [0; 4; 10] false; OAdd 1 (Some 7); OAlign [0; 5; 10]; ORemoveRepeats])
+    = Some [7; 7; 7; 7; 7; 9; 9; 9; 9; 9].
+Proof. exact ex_partition_any. Qed.
+Print Assumptions C11_example_partition_any.
+
+Example C11_example_laws :
+  expand 0 (remove Nat.eqb ex_c 7) = [8; 8; 8; 8; 9; 9; 9; 9] /\
+  remove Nat.eqb (remove Nat.eqb ex_c 7) 7 = remove Nat.eqb ex_c 7 /\
+  option_map (fun c => (idx c, ev c)) (remove_repeats (mk [7; 8] [0; 0; 1; 1; 0] [0; 1; 2; 3; 4; 5])) = Some ([0; 1; 0], [0; 2; 4; 5]) /\
+  option_map (fun c => (uv c, idx c, ev c)) (align 0 (mk [7; 8; 9] [1; 2] [0; 4; 10]) [0; 4; 10]) = Some ([8; 9], [0; 1], [0; 4; 10]) /\
+  option_map (fun c => (uv c, ev c, expand 0 c)) (label_pipeline Nat.eqb 0 ex_c 7 [0; 3; 6; 10])
+    = Some ([8; 9; 7], [0; 3; 6; 10], [7; 7; 7; 8; 8; 8; 9; 9; 9; 9]).
+Proof. exact ex_laws. Qed.
+Print Assumptions C11_example_laws.
+
+Example C11_example_mirrors :
+  lookup_g ex_c 5 = Some 0 /\ lookup_g ex_c 10 = None /\
+  option_map (expand 0) (add_g Nat.eqb ex_c 3 (Some 5)) = Some [7; 7; 8; 5; 5; 7; 9; 9; 9; 9] /\
+  expand 0 (remove_g Nat.eqb ex_c 7) = [8; 8; 8; 8; 9; 9; 9; 9] /\
+  map (expand 0) (partition_g ex_c [0; 3; 10]) = [[7; 7; 8]; [8; 8; 7; 9; 9; 9; 9]] /\
+  option_map ev (rr_g (mk [7; 8] [0; 0; 1; 1; 0] [0; 1; 2; 3; 4; 5])) = Some [0; 2; 4; 5].
+Proof. exact ex_mirrors. Qed.
+Print Assumptions C11_example_mirrors.
+
+Example C11_example_more :
+  ev (add_unmatched Nat.eqb ex_c [0; 4; 8; 10] 1) = [0; 2; 5; 6; 8; 10] /\
+  option_map (fun c => length (ev c)) (align 0 ex_c [0; 4; 10]) = Some 3 /\
+  uio_tok Nat.eqb (fun x : nat => x) [7; 8; 7; 9; 8] = ([7; 8; 9], [0; 1; 0; 2; 1]).
+Proof. exact ex_more. Qed.
+Print Assumptions C11_example_more.
